@@ -19,7 +19,7 @@ CLAIMED = {
  "C14": dict(
    text="Machine-checked (Properties/C14.v): the COMPLETE decision table of preprocess_chunks (what happens to the iCCP chunk and which switches are turned off) as an equation, and its corollaries in the words of the property: "
         "ICC kept (as is or recompressed) => grayscale conversion off; sRGB-tagged => conversion only if stripping enabled; replacement by sRGB only if stripping enabled, sRGB kept and profile recognised, with intent = byte 67; dropped for an existing sRGB only under the same policy condition; "
-        "recompressed profile inflates to identical bytes (zlib oracle); a gray<->colour move leaves no sRGB/iCCP. The profile-id and CRC tables are regenerated from headers.rs on every run. Tied by model replay and function-level comparison of the table lookup.",
+        "recompressed profile inflates to identical bytes (zlib oracle); a gray<->colour move leaves no sRGB/iCCP; the same down to what is written (optimize_png_data: kept profile / sRGB tag with stripping disabled => the image written has the input's grayness; a move => no sRGB/iCCP chunk written). The profile-id and CRC tables and the buffer guess of extract_icc are regenerated from headers.rs on every run. Tied by model replay and function-level comparison of the table lookup.",
    design="DESIGN.md §3 C14",
    note=BASE_NOTE + "the three CRC-identified known-bad profiles (3 KB each) are covered by the table-lookup correspondence only.",
    technique="Coq proof (exhaustive case analysis of the decision function) + regenerated constants + model replay + declarative oracle"),
@@ -49,7 +49,7 @@ CLAIMED = {
    technique="Coq proof (case analysis on the final decision; strong induction on length for the fixed point) + model replay"),
  "C05": dict(
    text="Machine-checked (Properties/C05.v), with every Rust panic point an explicit Panic value of the model: the chunk walker terminates within its fuel and never panics for any byte string and policy; header parsing never panics and yields only legal colour-type/bit-depth pairs; "
-        "an image is decoded only if its size is below 1032 x (compressed bytes + 1) with non-zero dimensions, and the unfiltered data is no longer than that; raw_data_size is exactly min(specification's size, usize::MAX) (saturating arithmetic); un-filtering a stream of the implied size, PngImage::new and the WHOLE parser PngData::from_slice never panic, for every byte string below 2^54 bytes, policy and error-fixing flag, assuming only that the decompressor returns (C05_from_slice_no_panic). "
+        "an image is decoded only if its size is below 1032 x (compressed bytes + 1) with non-zero dimensions, and the unfiltered data is no longer than that; raw_data_size is exactly min(specification's size, usize::MAX) (saturating arithmetic); the 1032 of that rule is the literal of the current source (regenerated constant, C05_size_rule_literal_is_source); un-filtering a stream of the implied size, PngImage::new and the WHOLE parser PngData::from_slice never panic, for every byte string below 2^54 bytes, policy and error-fixing flag, assuming only that the decompressor returns (C05_from_slice_no_panic). "
         "Runtime: isolated worker processes (catch_unwind, counting global allocator: largest single request and peak, RLIMIT_AS, watchdog) over every truncation, single-byte corruptions, chunk- and field-level edits of a structured corpus, hand-built absurd headers and raw tuples; debug and (thorough) release profile; outcome classes replayed on the model.",
    design="DESIGN.md §3 C05",
    note=BASE_NOTE + "PARTIAL: absence of Panic inside the reductions/filters for every accepted image and the peak of simultaneously live buffers are measured, not proved; memory safety of unsafe code and FFI is exercised only. Four genuine defects were repaired (fix commits 57dbdb7, e8d3884, 4d8f6d0, 0164411).",
@@ -75,6 +75,7 @@ CLAIMED = {
    text="Machine-checked on the pipeline model (Properties/C08.v), for every oracle environment and every setting of the other switches: with bit-depth / colour-type / grayscale changes disabled the emitted image keeps "
         "its bit depth / colour type code / grayness; with palette changes disabled an indexed image that stays indexed keeps its exact palette; 'keep' preserves the interlace flag and a requested mode is the mode of whatever is emitted; "
         "dimensions never change; with everything disabled optimize_raw produces nothing (IDAT re-emitted bit for bit). Proof = a generic invariant theorem over the twelve blocks of perform_reductions + provenance of the emitted image. "
+        "DOWN TO THE FILE: the same statements for the header of the PngData that `output` serialises (optimize_png_data, under the pre-processed options; a kept animation never changes its interlacing, a requested mode is the mode of whatever is emitted for a still image) and for the in-memory call (C08_memory_call). "
         "Tied to the code by model replay over all 16 switch subsets; oracle compares IHDR/PLTE/tRNS/IDAT directly.",
    design="DESIGN.md §3 C08",
    note=BASE_NOTE + "the link from the model image header to the IHDR bytes of `output` is by definition of the model's `output` (tied by replay).",
@@ -89,10 +90,13 @@ CLAIMED = {
  "C10": dict(
    text="Machine-checked (Properties/C10.v): recompression preserves number, order and every fcTL field of the frames and replaces frame data only by strictly smaller data; fcTL serialisation/parsing are inverse on all fields; "
         "sequence numbers written are consecutive; when the policy does not keep all of acTL/fcTL/fdAT they are all ignored (plain PNG); FRAME PIXELS: a frame's data is replaced only by the compression of a stream that the specification decodes - frame dimensions, the image's colour type, depth, interlacing - to the same picture (alpha-equivalent under -a), for all ten filter strategies and every subset of frames skipped by the clock (C10_frame_pixels). Generated APNGs (0..4 extra frames, split fdAT, default image in/out, sub-rectangles, all colour types, interlaced) x options: "
+        "FILE TO FILE against the APNG specification (Spec/Apng.v, written from the specification: frames opened by fcTL, default image as frame 0 when its fcTL precedes IDAT, fdAT data of the last opened frame, one sequence counter): "
+        "for every input the specification reads as an animation (animation chunks kept, file below 4 GiB, no empty IDAT chunk) the result is the input or the serialisation of a chunk sequence whose animation has the same number of frames in the same order "
+        "with identical size, offset, delay, dispose and blend fields and default-image flag, frame data unchanged or strictly smaller (C10_file_to_file; C10_parsed_animation, C10_written_animation). "
         "model replay, structural comparison of input and output, every frame decoded by the extracted specification.",
    design="DESIGN.md §3 C10",
    note=BASE_NOTE + "the frame-pixel theorem is under the zlib oracle assumption; every frame of every output is also decoded per run. F6 was repaired (fix 0e2fef8).",
-   technique="Coq proof (induction over the frame list; byte-level round trip of fcTL) + model replay + per-frame spec decode"),
+   technique="Coq proof (induction over the frame list; byte-level round trip of fcTL; lock-step simulation between the parser and the APNG specification) + model replay + per-frame spec decode"),
  "C11": dict(
    text="Machine-checked (Properties/C11.v): the constructor never panics and accepts exactly the consistent tuples (iff); the created file is `output` of a pipeline candidate with the given dimensions, so the container/structure theorems of C02 and the policy theorems of C07/C14 apply to it; PIXELS: the file created for a raw image that means pic is decoded by the specification's whole-file decoder to pic (alpha-equivalent under alpha optimisation) (C11_created_decodes). "
         "Generated consistent and inconsistent tuples with attached chunks / ICC profiles x options: model replay of the whole API, strict validation, and decode by the extracted specification against the raw samples.",
